@@ -113,7 +113,7 @@ func (s *Sched) Step(i int) Outcome {
 					t.done <- Resp{Status: 599, Kind: "none", Panic: fmt.Sprint(p)}
 				}
 			}()
-			t.done <- s.e.Exec(c)
+			t.done <- s.e.ExecDirect(c)
 		}()
 	} else if t.parked != "" {
 		t.parked = ""
